@@ -36,6 +36,15 @@ def stmt_forms(tid):
               ("deep9", "x + (y + (z + (x + (y + (z + (x + (y + (z + x))))))));"), ("deepcall", "x + (y + (z + (x + (y + (z + (x + (y + g(z))))))));"),
               ("callexpr", "x + g(y);"), ("callnest", "g(g(x) + y);"), ("ternval", "x = c ? y : z;"),
               ("condcall", "c ? g(x) : y;"), ("commaassign", "x = (y, z);"), ("mixed", "x = y + i;")]
+    if tid in ARITH:
+        # every conversion away from / into this type, discarded
+        for tgt in ("_Bool", "char", "unsigned char", "short", "unsigned short", "int", "unsigned int", "long", "unsigned long", "float"):
+            F.append(("cast_" + tgt.replace(" ", "_"), "(%s)x;" % tgt))
+            F.append(("castassign_" + tgt.replace(" ", "_"), "{ %s t_ = x; x = t_; }" % tgt))
+        # calls whose arguments spill to the stack (alignment padding, 16-byte aligned arguments)
+        F += [("call7", "g7(i, i, i, i, i, i, x);"), ("call8", "g8(i, i, i, i, i, i, i, x);"), ("call9", "g9(i, i, i, i, i, i, i, i, x);"),
+              ("call8nest", "g8(i, i, i, i, i, i, i, g(x));"), ("call8expr", "x + g8(i, i, i, i, i, i, i, y);"),
+              ("commamember", "(x, w).f;"), ("commamember2", "((y, x), w).f;")]
     if tid == "ptr":
         F += [("padd", "x + i;"), ("pdiff", "x - y;"), ("pinc", "x++;"), ("pcmp", "x < y;")]
     return F
@@ -66,9 +75,15 @@ class StmtProbe(e2.Probe):
         else:
             inner = "mark_%s(); %s mark_%s();" % (fn, stmt, fn)
         self.max_visits = 6
-        self.csrc = ("%s\nvoid mark_%s(void); int cnd_%s(void); %s g_%s(%s);\n"
+        ints = lambda k: ", ".join(["int"] * k)
+        extra = ("%s g7_%s(%s, %s); %s g8_%s(%s, %s); %s g9_%s(%s, %s); struct W_%s { int f; } w_%s;\n"
+                 % (tname, fn, ints(6), tname, tname, fn, ints(7), tname, tname, fn, ints(8), tname, fn, fn))
+        inner = inner.replace("g7(", "g7_%s(" % fn).replace("g8(", "g8_%s(" % fn).replace("g9(", "g9_%s(" % fn).replace(" w)", " w_%s)" % fn)
+        for k in ("g7_", "g8_", "g9_"):
+            self.extern_ret[k + fn] = retclass if retclass != "sse" else "int"
+        self.csrc = ("%s\nvoid mark_%s(void); int cnd_%s(void); %s g_%s(%s);\n%s"
                      "void %s(%s x, %s y, %s z, int c, int i, %s *p) { %s }\n"
-                     % (pre if not hasattr(StmtProbe, "_seen") else pre, fn, fn, tname, fn, tname, fn, tname, tname, tname, tname, inner))
+                     % (pre, fn, fn, tname, fn, tname, extra, fn, tname, tname, tname, tname, inner))
 
     def goals(self, M, finals):
         out = []
@@ -105,10 +120,16 @@ class StmtProbe(e2.Probe):
         pure = self.tid in ARITH and not any(k in stmt for k in ("{", "if ", "switch", "(void)"))
         if pure:
             nan_chk += " || ({ long double r_ = (%s); r_ != r_; })" % stmt.rstrip().rstrip(";")
+        stmt = stmt.replace("g7_" + self.fn, "g7").replace("g8_" + self.fn, "g8").replace("g9_" + self.fn, "g9").replace("w_" + self.fn, "w")
         probe = ("%s\n%s g(%s v) { return v; }\n"
                  "int run1(%s x, %s y, %s z, int c, int i, %s *p) { %s return %s; }\n"
                  "int runn(%s x, %s y, %s z, int c, int i, %s *p, long n) { for (long k = 0; k < n; k++) { %s } return 0; }\n"
                  % (self.pre, t, t, t, t, t, t, stmt, nan_chk, t, t, t, t, stmt))
+        ints = lambda k: ", ".join("int a%d" % j for j in range(k))
+        probe = ("struct W { int f; } w;\n%s g7(%s, %s v) { return v; } %s g8(%s, %s v) { return v; } %s g9(%s, %s v) { return v; }\n"
+                 % (t, ints(6), t, t, ints(7), t, t, ints(8), t)) + probe if self.tid in ARITH else probe
+        if self.tid in ARITH:
+            probe = self.pre + "\n" + probe.replace(self.pre + "\n", "", 1) if self.pre else probe
         init = "{0}" if agg else "0"
         one = init if agg or self.tid == "ptr" else "1"
         driver = ("#include <stdio.h>\n#include <string.h>\n%s\n"
